@@ -16,6 +16,9 @@ use signal_hook_registry::verif::{self, Hooks, Kind, Op, DIRECTIVE_SPURIOUS};
 
 thread_local! {
     static VTID: Cell<Option<usize>> = const { Cell::new(None) };
+    /// The run this virtual thread belongs to; a thread leaked by an aborted run must never act
+    /// in a later one.
+    static EPOCH: Cell<u64> = const { Cell::new(0) };
 }
 
 #[derive(Clone, Debug)]
@@ -56,16 +59,27 @@ struct VThread {
     depth: usize,
     panicked: Option<String>,
     steps: usize,
+    /// The thread just executed a spin/yield hint and nobody else has stepped since: it waits
+    /// for somebody else, so it is not scheduled again while another thread can step.
+    yielded: bool,
 }
 
 #[derive(Default)]
 struct State {
+    epoch: u64,
     active: bool,
     threads: Vec<VThread>,
     log: Vec<Event>,
     mutex_holder: HashMap<usize, (usize, usize)>,
     abort_reason: Option<String>,
+    deliver: Option<DeliverFn>,
+    /// Safety net: snapshots held by read sections (thr, depth, ptr) and freed pointers, so that
+    /// a schedule is stopped *before* the real code would touch freed memory.
+    held: Vec<(usize, usize, u64)>,
+    freed: std::collections::HashSet<u64>,
 }
+
+pub type DeliverFn = Arc<dyn Fn(c_int, u32) + Send + Sync + 'static>;
 
 pub struct Sched {
     m: Mutex<State>,
@@ -102,6 +116,11 @@ fn hook_before(op: &Op) -> u32 {
     };
     let s = sched();
     let mut st = s.m.lock().unwrap();
+    let my_epoch = EPOCH.with(|e| e.get());
+    if st.epoch != my_epoch {
+        drop(st);
+        park_forever();
+    }
     if !st.active {
         return 0;
     }
@@ -109,8 +128,12 @@ fn hook_before(op: &Op) -> u32 {
         st.threads[i].status = Status::Parked;
         st.threads[i].pending = Some(*op);
         s.cv.notify_all();
-        while st.threads[i].cmd.is_none() {
+        while st.epoch == my_epoch && st.threads[i].cmd.is_none() {
             st = s.cv.wait(st).unwrap();
+        }
+        if st.epoch != my_epoch {
+            drop(st);
+            park_forever();
         }
         match st.threads[i].cmd.take().unwrap() {
             Cmd::Go(d) => {
@@ -124,10 +147,18 @@ fn hook_before(op: &Op) -> u32 {
                 st.threads[i].depth += 1;
                 let depth = st.threads[i].depth;
                 push_ctl(&mut st, i, depth, "deliver_begin", sig as u64, id as u64);
+                let custom = st.deliver.clone();
                 drop(st);
+                if let Some(f) = custom {
+                    f(sig, id);
+                    st = s.m.lock().unwrap();
+                    push_ctl(&mut st, i, depth, "deliver_end", sig as u64, id as u64);
+                    st.threads[i].depth -= 1;
+                    continue;
+                }
                 let mut info: libc::siginfo_t = unsafe { std::mem::zeroed() };
                 info.si_signo = sig;
-                info.si_code = libc::SI_USER;
+                info.si_code = 0; // SI_USER
                 // si_pid / si_uid live right after the three leading ints (+ padding) on Linux.
                 unsafe {
                     let p = &mut info as *mut libc::siginfo_t as *mut i32;
@@ -172,6 +203,10 @@ fn hook_after(op: &Op, old: u64, new: u64, ok: bool) {
     };
     let s = sched();
     let mut st = s.m.lock().unwrap();
+    if st.epoch != EPOCH.with(|e| e.get()) {
+        drop(st);
+        park_forever();
+    }
     if !st.active {
         return;
     }
@@ -184,6 +219,41 @@ fn hook_after(op: &Op, old: u64, new: u64, ok: bool) {
             st.mutex_holder.remove(&op.loc);
         }
         _ => {}
+    }
+    let mut abort: Option<&'static str> = None;
+    if op.kind == Kind::Event {
+        match op.name {
+            "hl_open" => {
+                if st.freed.contains(&op.a) {
+                    abort = Some("open_of_freed_snapshot");
+                }
+                st.held.push((i, depth, op.a));
+            }
+            "hl_close" => {
+                if let Some(p) = st
+                    .held
+                    .iter()
+                    .rposition(|h| h.0 == i && h.1 == depth && h.2 == op.a)
+                {
+                    st.held.remove(p);
+                }
+            }
+            "hl_free" => {
+                if st.held.iter().any(|h| h.2 == op.a) {
+                    abort = Some("free_while_held");
+                }
+                if st.freed.contains(&op.a) {
+                    abort = Some("double_free");
+                }
+            }
+            "hl_freed" => {
+                st.freed.insert(op.a);
+            }
+            "hl_alloc" | "hl_init" => {
+                st.freed.remove(&op.a);
+            }
+            _ => {}
+        }
     }
     st.log.push(Event {
         thr: i,
@@ -199,6 +269,14 @@ fn hook_after(op: &Op, old: u64, new: u64, ok: bool) {
         new,
         ok,
     });
+    if let Some(reason) = abort {
+        st.abort_reason = Some(reason.to_string());
+        st.threads[i].status = Status::Parked;
+        st.threads[i].pending = None;
+        s.cv.notify_all();
+        drop(st);
+        park_forever();
+    }
 }
 
 /// Emit a harness-level event from inside a virtual thread (action bodies, call/return marks).
@@ -209,6 +287,10 @@ pub fn note(name: &str, a: u64, b: u64) {
     };
     let s = sched();
     let mut st = s.m.lock().unwrap();
+    if st.epoch != EPOCH.with(|e| e.get()) {
+        drop(st);
+        park_forever();
+    }
     if !st.active {
         return;
     }
@@ -283,7 +365,7 @@ pub trait Strategy {
     fn choose(&mut self, view: &View) -> usize;
 }
 
-#[derive(Clone, Debug)]
+#[derive(Clone)]
 pub struct RunCfg {
     /// Signals that may be delivered by the controller.
     pub signals: Vec<c_int>,
@@ -303,6 +385,10 @@ pub struct RunCfg {
     pub max_steps: usize,
     /// Deliveries only injected at points whose pending op is not the synthetic start.
     pub deliver_at_start: bool,
+    /// How many consecutive steps spinning threads may take while nobody else can step.
+    pub max_solo_spin: usize,
+    /// What a delivery runs (default: the registry's real dispatcher).
+    pub deliver: Option<DeliverFn>,
 }
 
 impl Default for RunCfg {
@@ -317,6 +403,8 @@ impl Default for RunCfg {
             preemption_bound: None,
             max_steps: 5000,
             deliver_at_start: true,
+            max_solo_spin: 64,
+            deliver: None,
         }
     }
 }
@@ -325,6 +413,8 @@ impl Default for RunCfg {
 pub enum Outcome {
     Done,
     Deadlock,
+    /// A thread kept spinning although nobody else could step any more.
+    Livelock,
     StepLimit,
     Aborted(String),
 }
@@ -356,8 +446,11 @@ pub fn run(bodies: Vec<Body>, strategy: &mut dyn Strategy, cfg: &RunCfg) -> RunR
     let n = bodies.len();
     {
         let mut st = s.m.lock().unwrap();
+        let epoch = st.epoch + 1;
         *st = State::default();
+        st.epoch = epoch;
         st.active = true;
+        st.deliver = cfg.deliver.clone();
         for _ in 0..n {
             st.threads.push(VThread {
                 status: Status::Spawned,
@@ -366,16 +459,19 @@ pub fn run(bodies: Vec<Body>, strategy: &mut dyn Strategy, cfg: &RunCfg) -> RunR
                 depth: 0,
                 panicked: None,
                 steps: 0,
+                yielded: false,
             });
         }
     }
     let mut handles = Vec::new();
+    let epoch = s.m.lock().unwrap().epoch;
     for (i, body) in bodies.into_iter().enumerate() {
         let h = std::thread::Builder::new()
             .name(format!("vt{}", i))
             .stack_size(512 * 1024)
             .spawn(move || {
                 VTID.with(|v| v.set(Some(i)));
+                EPOCH.with(|e| e.set(epoch));
                 let start = Op {
                     kind: Kind::Event,
                     loc: 0,
@@ -389,6 +485,10 @@ pub fn run(bodies: Vec<Body>, strategy: &mut dyn Strategy, cfg: &RunCfg) -> RunR
                 let r = catch_unwind(AssertUnwindSafe(body));
                 let s = sched();
                 let mut st = s.m.lock().unwrap();
+                if st.epoch != epoch {
+                    drop(st);
+                    park_forever();
+                }
                 if let Err(e) = r {
                     let msg = if let Some(m) = e.downcast_ref::<&str>() {
                         m.to_string()
@@ -416,6 +516,7 @@ pub fn run(bodies: Vec<Body>, strategy: &mut dyn Strategy, cfg: &RunCfg) -> RunR
     let mut spurious = 0usize;
     let mut preemptions = 0usize;
     let mut step = 0usize;
+    let mut solo_spin = 0usize;
     let outcome;
     let mut st = s.m.lock().unwrap();
     loop {
@@ -473,6 +574,16 @@ pub fn run(bodies: Vec<Body>, strategy: &mut dyn Strategy, cfg: &RunCfg) -> RunR
         }
         if let Some(h) = in_handler {
             steps.retain(|t| *t == h);
+        }
+        if steps.iter().any(|t| !st.threads[*t].yielded) {
+            steps.retain(|t| !st.threads[*t].yielded);
+            solo_spin = 0;
+        } else if !steps.is_empty() {
+            solo_spin += 1;
+            if solo_spin > cfg.max_solo_spin {
+                outcome = Outcome::Livelock;
+                break;
+            }
         }
         let mut choices: Vec<Choice> = Vec::new();
         let bound_hit = match cfg.preemption_bound {
@@ -540,6 +651,28 @@ pub fn run(bodies: Vec<Body>, strategy: &mut dyn Strategy, cfg: &RunCfg) -> RunR
         let c = choices[idx].clone();
         schedule.push(c.clone());
         step += 1;
+        let hint = match &c {
+            Choice::Step(t) => st.threads[*t]
+                .pending
+                .map(|o| matches!(o.kind, Kind::Yield | Kind::Spin))
+                .unwrap_or(false),
+            _ => false,
+        };
+        let actor = match &c {
+            Choice::Step(t) | Choice::Spurious(t) | Choice::Deliver(t, _) => *t,
+        };
+        if hint {
+            st.threads[actor].yielded = true;
+        } else {
+            for (u, th) in st.threads.iter_mut().enumerate() {
+                if u != actor {
+                    th.yielded = false;
+                }
+            }
+            if matches!(c, Choice::Deliver(..)) {
+                st.threads[actor].yielded = false;
+            }
+        }
         match c {
             Choice::Step(t) => {
                 if last_enabled && Some(t) != last {
